@@ -142,6 +142,7 @@ func (p *defaultPolicy[V]) Add(key uint64, cost int64) ([]*Item[V], bool) {
 				minKey, minHits, minId, minCost = pair.key, hits, i, pair.cost
 			}
 		}
+		verifSampled(p, key, incHits, sample, minKey, minHits)
 
 		// If the incoming item isn't worth keeping in the policy, reject.
 		if incHits < minHits {
